@@ -492,7 +492,12 @@ def _render_stmt(s, i, naming):
     if op == "do":
         t = "do vf ref"
         if s["actor"] is not None:
-            t += " as " + " ".join(naming[("A", s["actor"])])
+            parts = naming[("A", s["actor"])]
+            if (s["actor"] * 7 + len(s["pers"])) % 4 == 0:
+                # the name given as an init instead of with `as`: it is taken verbatim, here beginning with a small letter
+                t += ' cum name "%s"' % (parts[0] + "".join(x[:1].upper() + x[1:] for x in parts[1:]))
+            else:
+                t += " as " + " ".join(parts)
         t += " at enter"
         if s["via"]:
             t += " via " + R(s["via"])
